@@ -70,7 +70,11 @@ fn log_delivery(v: &[u8]) {
 }
 
 /// Receive until disconnected (or give up), logging deliveries.
-fn receiver_loop(rx: Rx, mode: &str) {
+fn receiver_loop(rx: Rx, mode: &str, delay_ns: u64) {
+    // a late receiver: everything sent meanwhile piles up in the socket buffer
+    if delay_ns > 0 {
+        sim::sleep_ns(delay_ns);
+    }
     let mut empties = 0u32;
     loop {
         let got = match (&rx, mode) {
@@ -261,6 +265,7 @@ impl Scenario for C02S {
             },
             ("router", Rx::Typed(r)) => {
                 let router = RouterProxy::new();
+                // (the route exists from the start; a late route is C07's subject)
                 router.add_route(
                     r.to_opaque(),
                     Box::new(|m| match m.to::<Vec<u8>>() {
@@ -274,7 +279,8 @@ impl Scenario for C02S {
             },
             (m, rx) => {
                 let m = m.to_string();
-                sim::spawn("receiver", None, move || receiver_loop(rx, &m));
+                let delay = p["start_delay_us"].as_u64().unwrap_or(0).min(1_000_000) * 1000;
+                sim::spawn("receiver", None, move || receiver_loop(rx, &m, delay));
             },
         }
         // senders
